@@ -1,6 +1,236 @@
-//! `vh project`: see /verif/docs/MODULE_CONTRACT.md
+//! `vh project <font.ttf> '<json spec>'`: project a compiled font into JSON.
+//!
+//! spec: {"sections": ["tables","names","cmap","fvar","avar","hmtx","glyf","draw","metrics",
+//!                      "head","hhea","maxp","os2","post","name"],
+//!        "locs": [[normalized coords in fvar axis order], ...]}     (for draw / metrics)
+//! Everything is measured from the binary with read-fonts/skrifa; nothing is interpreted.
 
-pub fn run(_args: &[String]) -> i32 {
-    eprintln!("vh project: not implemented yet");
-    2
+use serde_json::{Map, Value, json};
+use skrifa::{
+    MetadataProvider,
+    raw::{
+        FontRef, TableProvider,
+        tables::glyf::{Anchor, Glyph},
+        types::GlyphId,
+    },
+};
+
+use crate::fontutil;
+
+pub fn project(data: &[u8], spec: &Value) -> Result<Value, String> {
+    let font = FontRef::new(data).map_err(|e| format!("cannot parse font: {e}"))?;
+    let want = |s: &str| {
+        spec.get("sections")
+            .and_then(|v| v.as_array())
+            .map(|a| a.iter().any(|x| x.as_str() == Some(s)))
+            .unwrap_or(false)
+    };
+    let mut out = Map::new();
+    let names = fontutil::glyph_names(&font);
+    let ng = names.len() as u32;
+    out.insert("num_glyphs".into(), json!(ng));
+    if want("tables") {
+        let tags: Vec<String> = font
+            .table_directory
+            .table_records()
+            .iter()
+            .map(|r| r.tag().to_string())
+            .collect();
+        out.insert("tables".into(), json!(tags));
+    }
+    if want("names") {
+        out.insert("names".into(), json!(names));
+    }
+    if want("cmap") {
+        let cm = font.charmap();
+        let mut v: Vec<(u32, u32)> = cm.mappings().map(|(c, g)| (c, g.to_u32())).collect();
+        v.sort();
+        out.insert("cmap".into(), json!(v));
+    }
+    if want("fvar") {
+        let mut axes = Vec::new();
+        let mut insts = Vec::new();
+        if let Ok(fvar) = font.fvar() {
+            if let Ok(ax) = fvar.axes() {
+                for a in ax {
+                    axes.push(json!({"tag": a.axis_tag().to_string(), "min": a.min_value().to_f64(),
+                        "default": a.default_value().to_f64(), "max": a.max_value().to_f64(),
+                        "name_id": a.axis_name_id().to_u16(), "flags": a.flags()}));
+                }
+            }
+            if let Ok(instances) = fvar.instances() {
+                for i in instances.iter().flatten() {
+                    insts.push(json!({"subfamily_name_id": i.subfamily_name_id.to_u16(),
+                        "post_script_name_id": i.post_script_name_id.map(|n| n.to_u16()),
+                        "coords": i.coordinates.iter().map(|c| c.get().to_f64()).collect::<Vec<_>>()}));
+                }
+            }
+        }
+        out.insert("fvar".into(), json!({"axes": axes, "instances": insts}));
+    }
+    if want("avar") {
+        let mut maps = Vec::new();
+        if let Ok(avar) = font.avar() {
+            for m in avar.axis_segment_maps().iter().flatten() {
+                let seg: Vec<(f64, f64)> = m
+                    .axis_value_maps()
+                    .iter()
+                    .map(|p| (p.from_coordinate().to_f32() as f64, p.to_coordinate().to_f32() as f64))
+                    .collect();
+                maps.push(seg);
+            }
+            out.insert("avar".into(), json!(maps));
+        } else {
+            out.insert("avar".into(), Value::Null);
+        }
+    }
+    if want("hmtx") {
+        let mut v = Vec::new();
+        if let Ok(hmtx) = font.hmtx() {
+            for gid in 0..ng {
+                v.push(json!([hmtx.advance(GlyphId::new(gid)), hmtx.side_bearing(GlyphId::new(gid))]));
+            }
+        }
+        out.insert("hmtx".into(), json!(v));
+        if let Ok(hhea) = font.hhea() {
+            out.insert("number_of_h_metrics".into(), json!(hhea.number_of_h_metrics()));
+        }
+    }
+    if want("glyf") {
+        let mut v = Vec::new();
+        if let (Ok(loca), Ok(glyf)) = (font.loca(None), font.glyf()) {
+            for gid in 0..ng {
+                let g = loca.get_glyf(GlyphId::new(gid), &glyf);
+                v.push(match g {
+                    Ok(None) => json!({"kind": "empty"}),
+                    Ok(Some(Glyph::Simple(s))) => {
+                        let pts: Vec<Value> = s
+                            .points()
+                            .map(|p| json!([p.x, p.y, p.on_curve as u8]))
+                            .collect();
+                        let ends: Vec<u16> = s.end_pts_of_contours().iter().map(|e| e.get()).collect();
+                        json!({"kind": "simple", "points": pts, "ends": ends,
+                            "bbox": [s.x_min(), s.y_min(), s.x_max(), s.y_max()]})
+                    }
+                    Ok(Some(Glyph::Composite(c))) => {
+                        let comps: Vec<Value> = c
+                            .components()
+                            .map(|k| {
+                                let (dx, dy, by_point) = match k.anchor {
+                                    Anchor::Offset { x, y } => (x as i32, y as i32, false),
+                                    Anchor::Point { base, component } => (base as i32, component as i32, true),
+                                };
+                                json!({"gid": k.glyph.to_u16(), "name": names.get(k.glyph.to_u16() as usize),
+                                    "flags": k.flags.bits(), "dx": dx, "dy": dy, "by_point": by_point,
+                                    "xform": [k.transform.xx.to_f32(), k.transform.yx.to_f32(),
+                                              k.transform.xy.to_f32(), k.transform.yy.to_f32()]})
+                            })
+                            .collect();
+                        json!({"kind": "composite", "components": comps,
+                            "bbox": [c.x_min(), c.y_min(), c.x_max(), c.y_max()]})
+                    }
+                    Err(e) => json!({"kind": "error", "message": e.to_string()}),
+                });
+            }
+        }
+        out.insert("glyf".into(), json!(v));
+    }
+    let locs: Vec<Vec<f64>> = spec
+        .get("locs")
+        .and_then(|v| serde_json::from_value(v.clone()).ok())
+        .unwrap_or_default();
+    if want("draw") || want("metrics") {
+        let mut per_loc = Vec::new();
+        for loc in &locs {
+            let coords = fontutil::f2dot14s(loc);
+            let mut glyphs = Vec::new();
+            for gid in 0..ng {
+                let mut g = Map::new();
+                if want("draw") {
+                    g.insert("path".into(), json!(fontutil::draw(&font, gid, &coords)));
+                }
+                if want("metrics") {
+                    let (adv, lsb) = fontutil::h_metrics(&font, gid, &coords);
+                    g.insert("advance".into(), json!(adv));
+                    g.insert("lsb".into(), json!(lsb));
+                }
+                glyphs.push(Value::Object(g));
+            }
+            per_loc.push(json!({"loc": loc, "glyphs": glyphs}));
+        }
+        out.insert("at".into(), json!(per_loc));
+    }
+    if want("head")
+        && let Ok(h) = font.head()
+    {
+        out.insert("head".into(), json!({"units_per_em": h.units_per_em(), "x_min": h.x_min(), "y_min": h.y_min(),
+            "x_max": h.x_max(), "y_max": h.y_max(), "index_to_loc_format": h.index_to_loc_format(),
+            "mac_style": h.mac_style().bits(), "flags": h.flags().bits(), "created": h.created().as_secs(),
+            "modified": h.modified().as_secs(), "font_revision": h.font_revision().to_f64()}));
+    }
+    if want("hhea")
+        && let Ok(h) = font.hhea()
+    {
+        out.insert("hhea".into(), json!({"ascender": h.ascender().to_i16(), "descender": h.descender().to_i16(),
+            "line_gap": h.line_gap().to_i16(), "advance_width_max": h.advance_width_max().to_u16(),
+            "min_left_side_bearing": h.min_left_side_bearing().to_i16(),
+            "min_right_side_bearing": h.min_right_side_bearing().to_i16(),
+            "x_max_extent": h.x_max_extent().to_i16(), "caret_slope_rise": h.caret_slope_rise(),
+            "caret_slope_run": h.caret_slope_run(), "caret_offset": h.caret_offset(),
+            "number_of_h_metrics": h.number_of_h_metrics()}));
+    }
+    if want("maxp")
+        && let Ok(m) = font.maxp()
+    {
+        out.insert("maxp".into(), json!({"num_glyphs": m.num_glyphs(), "max_points": m.max_points(),
+            "max_contours": m.max_contours(), "max_composite_points": m.max_composite_points(),
+            "max_composite_contours": m.max_composite_contours(),
+            "max_component_elements": m.max_component_elements(), "max_component_depth": m.max_component_depth()}));
+    }
+    if want("name")
+        && let Ok(n) = font.name()
+    {
+        let mut recs = Vec::new();
+        for r in n.name_record() {
+            let s = r
+                .string(n.string_data())
+                .map(|s| s.chars().collect::<String>())
+                .unwrap_or_default();
+            recs.push(json!({"id": r.name_id().to_u16(), "platform": r.platform_id(), "encoding": r.encoding_id(),
+                "language": r.language_id(), "string": s}));
+        }
+        out.insert("name".into(), json!(recs));
+    }
+    Ok(Value::Object(out))
+}
+
+pub fn run(args: &[String]) -> i32 {
+    let (Some(path), Some(spec)) = (args.first(), args.get(1)) else {
+        eprintln!("usage: vh project <font> '<json spec>'");
+        return 2;
+    };
+    let spec: Value = match serde_json::from_str(spec) {
+        Ok(v) => v,
+        Err(e) => {
+            eprintln!("bad spec: {e}");
+            return 2;
+        }
+    };
+    let data = match std::fs::read(path) {
+        Ok(d) => d,
+        Err(e) => {
+            eprintln!("cannot read {path}: {e}");
+            return 2;
+        }
+    };
+    match project(&data, &spec) {
+        Ok(v) => {
+            println!("{v}");
+            0
+        }
+        Err(e) => {
+            println!("{}", json!({"error": e}));
+            0
+        }
+    }
 }
